@@ -1066,3 +1066,147 @@ func RLoopMatch(c *core.Ctx) {
 		c.Anchor("Match method calls on scan results inside loops")
 	}
 }
+
+// ---------------------------------------------------------------------------
+// R-WHOLETEXT: the interpreter always sees the whole input.
+// A candidate from the raw-string filter (or a caller's start offset) moves
+// where the scan STARTS; lookbehind, \b, \B, ^ and \G still look at the text
+// before it.  The decode helpers must therefore be given the caller's whole
+// string, never a slice of it.
+// ---------------------------------------------------------------------------
+
+func RWholeText(c *core.Ctx) {
+	c.Rule("R-WHOLETEXT", "every call of Runner.decodeString / decodeStringWithStart and Regexp.getRunesAndStart in package regexp2 receives the function's own string parameter unsliced: a start position is passed as an offset, never by cutting the text", 6)
+	p := c.P
+	targets := map[*ssa.Function]int{}
+	for nm, idx := range map[string]int{"Runner.decodeString": 1, "Runner.decodeStringWithStart": 1, "Regexp.getRunesAndStart": 1} {
+		if f := p.SSAFunc(p.LookupFunc("", nm)); f != nil {
+			targets[f] = idx
+		} else {
+			c.Anchor("regexp2." + nm)
+		}
+	}
+	n := 0
+	for _, fn := range p.ModuleFuncs() {
+		if core.FnPkgPath(fn) != core.PkgRoot {
+			continue
+		}
+		name := core.SSAName(fn)
+		cnt := 0
+		for _, b := range fn.Blocks {
+			for _, ins := range b.Instrs {
+				call, ok := ins.(ssa.CallInstruction)
+				if !ok {
+					continue
+				}
+				idx, ok := targets[call.Common().StaticCallee()]
+				if !ok || idx >= len(call.Common().Args) {
+					continue
+				}
+				cnt++
+				n++
+				c.Visit(name)
+				arg := call.Common().Args[idx]
+				_, sliced := arg.(*ssa.Slice)
+				c.Check(!sliced, fmt.Sprintf("%s / decode call #%d is given the whole input", name, cnt), ins.Pos(),
+					"the text handed to the decoder is %s, a slice of the input: what precedes the cut is invisible to lookbehind, \\b and anchors, so this entry point answers differently from the ones that decode the whole string", arg.String())
+			}
+		}
+	}
+	if n == 0 {
+		c.Anchor("decode calls in package regexp2")
+	}
+}
+
+// ---------------------------------------------------------------------------
+// R-FOLDEXIT: ReplaceFunc walks the whole match sequence.
+// The evaluator loops of replace() are folds over FindStringMatch /
+// FindNextMatch: they end when the sequence ends (m == nil) or when `count`
+// matches were replaced.  Any other exit ("the input is used up") drops
+// matches the sequence still contains — the empty match at the very end.
+// ---------------------------------------------------------------------------
+
+func RFoldExit(c *core.Ctx) {
+	c.Rule("R-FOLDEXIT", "in replace() every `break` out of a `for m != nil` evaluator loop is guarded by a condition that mentions only the replacement count: the loop otherwise ends only when FindNextMatch returns nil", 2)
+	p := c.P
+	pk := p.Pkg("")
+	info := pk.TypesInfo
+	fd, _ := p.DeclOf(p.LookupFunc("", "replace"))
+	if fd == nil {
+		c.Anchor("regexp2.replace")
+		return
+	}
+	c.Visit("regexp2.replace")
+	var countObj types.Object
+	for _, f := range fd.Type.Params.List {
+		for _, nm := range f.Names {
+			if nm.Name == "count" {
+				countObj = info.Defs[nm]
+			}
+		}
+	}
+	if countObj == nil {
+		c.Anchor("parameter count of replace")
+		return
+	}
+	n := 0
+	ast.Inspect(fd.Body, func(x ast.Node) bool {
+		fs, ok := x.(*ast.ForStmt)
+		if !ok || fs.Cond == nil {
+			return true
+		}
+		be, ok := ast.Unparen(fs.Cond).(*ast.BinaryExpr)
+		if !ok || be.Op != token.NEQ {
+			return true
+		}
+		if tv, ok := info.Types[be.Y]; !ok || !tv.IsNil() {
+			return true
+		}
+		var stack []ast.Node
+		ast.Inspect(fs.Body, func(y ast.Node) bool {
+			if y == nil {
+				stack = stack[:len(stack)-1]
+				return true
+			}
+			stack = append(stack, y)
+			if _, isLoop := y.(*ast.ForStmt); isLoop {
+				return false
+			}
+			br, ok := y.(*ast.BranchStmt)
+			if !ok || br.Tok != token.BREAK {
+				return true
+			}
+			n++
+			guard := "unconditional"
+			okGuard := false
+			for i := len(stack) - 2; i >= 0; i-- {
+				if ifs, ok := stack[i].(*ast.IfStmt); ok {
+					guard = types.ExprString(ifs.Cond)
+					only := true
+					ast.Inspect(ifs.Cond, func(z ast.Node) bool {
+						if id, ok := z.(*ast.Ident); ok {
+							if obj := info.ObjectOf(id); obj != nil && obj != countObj {
+								if _, isVar := obj.(*types.Var); isVar {
+									only = false
+								}
+							}
+						}
+						if _, isCall := z.(*ast.CallExpr); isCall {
+							only = false
+						}
+						return true
+					})
+					okGuard = only
+					break
+				}
+			}
+			c.Check(okGuard, fmt.Sprintf("replace / break #%d of an evaluator loop depends on the count only", n), br.Pos(),
+				"the loop is left under `%s`: ending the fold on anything but the count or the end of the match sequence drops matches that FindNextMatch would still deliver (the empty match at the end of the input after a match that reaches it)", guard)
+			return true
+		})
+		return true
+	})
+	if n == 0 {
+		c.Anchor("break statements in the evaluator loops of replace()")
+	}
+}
